@@ -78,6 +78,9 @@ var (
 )
 
 func locksetHook(kind string, cm *memdb.ConcurrentMap, key string, pos int) {
+	if perturb.Load() && (kind == "RU" || kind == "U") {
+		runtime.Gosched() // schedule perturbation between the critical sections of one command
+	}
 	if !lsOn.Load() {
 		return
 	}
@@ -179,6 +182,20 @@ func kvStep(state string, in kvInput, out string) (bool, string) {
 			return out == integer(1), "s:" + in.Arg
 		}
 		return out == integer(0), state
+	case "setgone":
+		// SET k v EXAT 1: acknowledged, and expired at once — from then on the key is missing for every observer
+		if missing || isStr {
+			return out == "+OK\r\n", "~"
+		}
+		return wrong, state
+	case "expirenow":
+		// EXPIRE k -1: the deadline is in the past, the key is gone for every observer from here on
+		if missing {
+			return out == integer(0), "~"
+		}
+		return out == integer(1), "~"
+	case "setex":
+		return out == "+OK\r\n", "s:" + in.Arg
 	case "append":
 		if missing || isStr {
 			n := str + in.Arg
@@ -364,6 +381,27 @@ var scenarios = []scenario{
 		}
 		return []string{"SETNX", k, v}, k, kvInput{"setnx", v}
 	}},
+	// lazy expiry racing with re-arming writes: a key is stored already expired (the timer goroutine and every reader run CheckTTL
+	// on it) while other clients give it a fresh value and deadline; an acknowledged SETEX must never be deleted by a stale verdict
+	{"expiry", []string{"x1"}, func(rng *rand.Rand, g, i int, keys []string) ([]string, string, kvInput) {
+		k := keys[0]
+		v := fmt.Sprintf("f%d_%d", g, i)
+		switch rng.Intn(6) {
+		case 0:
+			if os.Getenv("VERIF_NO_SETGONE") == "" {
+				return []string{"SET", k, "old", "EXAT", "1"}, k, kvInput{"setgone", ""}
+			}
+			return []string{"EXPIRE", k, "-1"}, k, kvInput{"expirenow", ""}
+		case 1:
+			return []string{"EXPIRE", k, "-1"}, k, kvInput{"expirenow", ""}
+		case 2, 3:
+			return []string{"SETEX", k, "100", v}, k, kvInput{"setex", v}
+		case 4:
+			return []string{"EXISTS", k}, k, kvInput{"exists", ""}
+		default:
+			return []string{"GET", k}, k, kvInput{"get", ""}
+		}
+	}},
 	{"queue", []string{"q1", "q2"}, func(rng *rand.Rand, g, i int, keys []string) ([]string, string, kvInput) {
 		k := pick(rng, keys)
 		v := fmt.Sprintf("e%d_%d", g, i)
@@ -503,6 +541,15 @@ func parseBack(o concOp) ([]string, string, kvInput) {
 	if len(o.Cmd) > 2 {
 		arg = o.Cmd[2]
 	}
+	if op == "set" && len(o.Cmd) == 5 && strings.ToLower(o.Cmd[3]) == "exat" {
+		op = "setgone"
+	}
+	if op == "setex" {
+		arg = o.Cmd[3]
+	}
+	if op == "expire" {
+		op = "expirenow"
+	}
 	return o.Cmd, o.Key, kvInput{Op: op, Arg: arg}
 }
 
@@ -526,9 +573,17 @@ func runConc(args []string) {
 			if ngo >= 8 {
 				nops = 12
 			}
+			if sc.name == "expiry" {
+				ngo, nops = []int{3, 4, 6}[r%3], 120
+			}
+			if v := os.Getenv("VERIF_CONC_SMALL"); v != "" {
+				ngo, nops = 2, 14
+			}
 			shards := []int{1, 2, 1024}[r%3]
 			rep := concReport{Scenario: sc.name, Seed: seed + int64(r), Goroutines: ngo, Shards: shards}
+			perturb.Store(r%2 == 1) // every other round yields at each lock release
 			runScenario(sc, seed+int64(r), ngo, nops, shards, &rep)
+			perturb.Store(false)
 			enc.Encode(rep)
 			if rep.Result == "stuck" {
 				return // goroutines are wedged; the orchestrator restarts the harness
@@ -536,4 +591,9 @@ func runConc(args []string) {
 		}
 	}
 	multiKey(seed, rounds, want, enc)
+	rr := rounds
+	if rr > 3 && os.Getenv("VERIF_TIER") != "thorough" {
+		rr = 3
+	}
+	rearm(seed, rr, want, enc)
 }
